@@ -36,8 +36,12 @@ EXPLANATION = ("Lean theorems: the importer's line splitter inverts clang's fiel
                "programs clang accepts; the model import covers the node kinds listed in Model/ClangDeclMap.lean `supported`; "
                "outside the model: scopes, types, value types, templates, range-for, out-of-line member definitions, never-crash "
                "for arbitrary programs (sampled only), ValueFlow and the checks after the import.")
-THEOREMS = []
-MODULES = []
+THEOREMS = ["Cppcheck.C35.split_join", "Cppcheck.C35.split_join_counterexample", "Cppcheck.C35.use_links_referenced",
+            "Cppcheck.C35.varIds_distinct", "Cppcheck.C35.use_links_dup_address_counterexample", "Cppcheck.C35.location_token_resolves",
+            "Cppcheck.C35.location_sequence_resolves", "Cppcheck.C35.location_inheritance_counterexample",
+            "Cppcheck.C35.location_column_counterexample", "Cppcheck.C35.location_lineform_column", "Cppcheck.C35.import_setters_only",
+            "Cppcheck.C35.import_ast_invariant", "Cppcheck.C35.checker_sound", "Cppcheck.C35.checked_links"]
+MODULES = ["Cppcheck.Props.C35"]
 
 CACHE = os.path.join(core.VERIF, ".build", "cache", "c35")
 CLANG = "clang-14"
@@ -329,7 +333,7 @@ class Gen:
                 lv = self.lvalue(env)
                 if lv:
                     ls.append("%s  %s = %s;" % (pad, lv, self.expr(env, ind)))
-                if r.random() < 0.8:
+                if r.random() < 0.8 or not lv:
                     ls.append(pad + "  break;")
             if r.random() < 0.6:
                 ls.append(pad + "default:")
@@ -480,7 +484,11 @@ class Gen:
         lines = ["%s %s {" % (kw, c)]
         if kw == "class":
             lines.append("public:")
-        lines += ["  int %s;" % f for f in fs]
+        # some fields are declared after the methods that use them: the uses come BEFORE the declaration in the dump
+        late = fs[1:] if r.random() < 0.5 else []
+        if late:
+            self.features.add("field-used-before-declaration")
+        lines += ["  int %s;" % f for f in fs if f not in late]
         info = dict(fields=fs, methods=[])
         fenv = [(f, "int") for f in fs]
         if r.random() < 0.5:
@@ -496,6 +504,7 @@ class Gen:
             f, kinds, ret, ls = self.function(name=m, ind=2, extra_env=fenv if not qual else [], ret="int", qual=qual, proto_ok=False)
             lines += ls
             info["methods"].append((m, kinds))
+        lines += ["  int %s;" % f for f in late]
         if kw == "class" and r.random() < 0.3:
             lines.append("private:")
             p = self.fresh("fm")
@@ -720,7 +729,8 @@ def align(case, toks):
         if ENTITY.match(d["name"] or "") and not d["dropped"]:
             occ.setdefault(d["name"], []).append(dict(role="D", id=i, off=d["off"], d=d))
     for u in tr["uses"]:
-        if u["name"] and ENTITY.match(u["name"]) and u["target"] in tr["decls"] and not u["dropped"] and not (u.get("nonodr") and u["via"] == "member"):
+        if u["name"] and ENTITY.match(u["name"]) and u["target"] in tr["decls"] and not u["dropped"] and \
+                not (u.get("nonodr") and u["via"] == "member" and "mf" not in case.get("mode", "cur")):
             occ.setdefault(u["name"], []).append(dict(role="U", id=u["target"], off=u["off"], u=u))
     bystr = {}
     for t in toks:
@@ -1029,7 +1039,7 @@ def evaluate(c, line):
     viol += [(k, t) for k, t, _ in bad if k != "loc-col"]
     stats["col_mismatch"] = sum(1 for k, _, _ in bad if k == "loc-col")
     # MemberExpr printed with a trailing flag: the importer takes the address for the member name (token "0x…") and links nothing
-    nonodr = [u for u in c["truth"]["uses"] if u.get("nonodr") and u["via"] == "member"]
+    nonodr = [u for u in c["truth"]["uses"] if u.get("nonodr") and u["via"] == "member"] if "mf" not in c.get("mode", "cur") else []
     if nonodr and any(re.match(r"^0x[0-9a-f]+$", t["str"]) for t in toks):
         viol.append(("member-nonodr-flag", "member use inside an unevaluated operand (source %d:%d): the token is spelt with the address and is unlinked" %
                      linecol(c["text"], nonodr[0]["off"])))
@@ -1041,20 +1051,42 @@ def evaluate(c, line):
 
 
 def run(ctx, res):
+    import time
     rng = ctx.rng
     thorough = ctx.tier == "thorough"
-    if THEOREMS:
-        core.prove(ctx, res, MODULES, THEOREMS)
+    T = {}
+    t0 = time.time()
+    core.prove(ctx, res, MODULES, THEOREMS)
     drv = ctx.driver("drv_c35")
     exe = ctx.harness("c35")
+    T["prove+build"] = round(time.time() - t0, 1)
+    res.extra["phase_seconds"] = T
 
     # ---- known-finding witnesses first; they also tell which behaviour of `setTypes` the tree has ----------------------------
     wit = load_witnesses()
     wcases = [dict(lang=w["lang"], text=w["text"], layout="witness", stress=True, features=[], wkey=w["key"], name=w["name"]) for w in wit]
     clang_all(wcases)
+    badw = [c["name"] for c in wcases if not c.get("clang_ok")]
+    res.oblig("corpus:witnesses-accepted-by-clang", not badw, "machinery", "clang-14 rejects the witness programs %s" % badw)
+    wcases = [c for c in wcases if c.get("clang_ok")]
     wout = run_robust(exe, [dump_op(c, "cur") for c in wcases]) if wcases else []
     seen_keys = {}
+    sizeof_clean = member_clean = False
+    for c, o in zip(wcases, wout):          # which of the proposed repairs does the tree already have?
+        toks = parse_dump_line(o)
+        if toks is None:
+            continue
+        if c["wkey"] == "use-inside-sizeof":
+            ins = [t for t in toks if ENTITY.match(t["str"]) and in_sizeof(toks, t["idx"])]
+            sizeof_clean = bool(ins) and all(t["varDef"] is not None and t["varId"] != 0 for t in ins)
+        if c["wkey"] == "member-nonodr-flag":
+            # the repaired MemberExpr branch spells the member by its name (two tokens `fm1`: declaration and use)
+            member_clean = not any(re.match(r"^0x[0-9a-f]+$", t["str"]) for t in toks) and sum(1 for t in toks if t["str"] == "fm1") == 2
+    mode = "+".join((["sf"] if sizeof_clean else []) + (["mf"] if member_clean else [])) or "cur"
     for c, o in zip(wcases, wout):
+        c["mode"] = mode
+        for u in (c.get("truth") or {}).get("uses", []):
+            u.setdefault("nonodr", False)
         viol, stats, note = evaluate(c, o)
         hit = [v for v in viol if v[0] == c["wkey"]]
         res.case("witness|" + c["name"], True, dict(tie="witness", name=c["name"], key=c["wkey"], reproduces=bool(hit)))
@@ -1065,8 +1097,8 @@ def run(ctx, res):
         for k, t in viol:
             if k != c["wkey"] and k not in KNOWN_KEYS:
                 res.violation("witness %s: %s" % (c["name"], t), dict(kind="program", lang=c["lang"], text=c["text"], key=k), concrete=True, key=k)
-    mode = "cur" if (seen_keys.get("use-inside-sizeof") or not any(w["key"] == "use-inside-sizeof" for w in wit)) else "sf"
-    res.extra["setTypes_behaviour"] = "current (clears links inside sizeof)" if mode == "cur" else "repaired"
+    res.extra["behaviour_of_the_tree"] = dict(setTypes_sizeof="repaired" if sizeof_clean else "current (clears links inside sizeof)",
+                                              MemberExpr_flag="repaired" if member_clean else "current (last two fields)")
 
     # ---- programs ------------------------------------------------------------------------------------------------------
     plan = [("c", "safe", False, 40 if thorough else 8), ("c", "free", False, 40 if thorough else 6), ("cpp", "safe", False, 40 if thorough else 7),
@@ -1080,6 +1112,8 @@ def run(ctx, res):
     res.oblig("generator:programs-accepted-by-clang", not bad_clang, "machinery",
               "" if not bad_clang else "%d generated programs were rejected by clang-14; first:\n%s" % (len(bad_clang), bad_clang[0]["text"][:600]))
     cases = [c for c in cases if c.get("clang_ok")]
+    for c in cases:
+        c["mode"] = mode
     res.extra["clang_runs_cached"] = sum(1 for c in cases if c.get("cached"))
     for c in cases:
         for u in c["truth"]["uses"]:
@@ -1124,6 +1158,27 @@ def run(ctx, res):
             d = next((j for j, (x, y) in enumerate(zip(a, b)) if x != y), min(len(a), len(b)))
             res.extra["import_mismatch"] = dict(lang=c["lang"], text=c["text"], mutated=bool(c.get("mut")), field=d, impl=a[max(0, d - 2):d + 2], model=b[max(0, d - 2):d + 2])
 
+    T["clang+import"] = round(time.time() - t0, 1)
+    # ---- the hypotheses of the theorems on the real inputs (evidence: how much of the real input the theorems speak about) ----
+    eops = ["events %s %s %s %s" % (c["lang"], core.hx(src_name(c["lang"])), core.hx(c["dump"]), mode) for c in cases]
+    rc, eo, err = core.run_lines(drv, [], eops, timeout=900)
+    hyp = dict(dumps=0, setters_only=0, addrs_unique=0, toks_fresh=0, objs_fresh=0, events=0, refs=0, refs_before_decl=0, all_hypotheses=0)
+    for o in eo:
+        if not o.startswith("ok "):
+            continue
+        f = dict(x.split("=") for x in o.split(" ")[1:])
+        hyp["dumps"] += 1
+        hyp["setters_only"] += f["via"] == "1"
+        hyp["addrs_unique"] += f["u"] == "1"
+        hyp["toks_fresh"] += f["f"] == "1"
+        hyp["objs_fresh"] += f["o"] == "1"
+        hyp["all_hypotheses"] += (f["u"], f["f"], f["o"], f["r"]) == ("1", "1", "1", "1")
+        hyp["events"] += int(f["events"]); hyp["refs"] += int(f["refs"]); hyp["refs_before_decl"] += int(f["early"])
+    res.extra["theorem_hypotheses_on_real_dumps"] = hyp
+    res.oblig("hypotheses:use_links_referenced-applies-to-real-dumps", hyp["dumps"] > 0 and hyp["all_hypotheses"] * 10 >= hyp["dumps"] * 9 and
+              hyp["setters_only"] == hyp["dumps"], "hypotheses",
+              "" if hyp["dumps"] else "no dump was imported by the model: %s" % eo[:2])
+
     # ---- P_impl on the real importer -------------------------------------------------------------------------------------
     inv_ops, inv_cases = [], []
     agg = {}
@@ -1164,9 +1219,12 @@ def run(ctx, res):
     lines = sorted(set(lines))
     rng.shuffle(lines)
     lines = lines[:6000 if thorough else 1500] + [gen_split_line(rng) for _ in range(6000 if thorough else 1500)]
+    nreal = min(len(lines), 6000 if thorough else 1500)
     sops = ["split " + core.hx(l) for l in lines]
     si = run_robust(exe, sops)
     rc, sm, err = core.run_lines(drv, [], sops)
+    rc, cov, err = core.run_lines(drv, [], ["cover " + core.hx(l) for l in lines[:nreal]])
+    res.extra["real_dump_lines_in_split_join_class"] = "%d of %d" % (sum(1 for x in cov if x == "1"), len(cov))
     grouped = {op: (" " in l.strip() and any(ch in l for ch in "<'\"")) for op, l in zip(sops, lines)}
     core.correspond(ctx, res, "split", sops, si, sm, nontrivial=lambda op, out: grouped.get(op, False))
 
@@ -1189,8 +1247,10 @@ def run(ctx, res):
     rc, lm, err = core.run_lines(drv, [], lops)
     core.correspond(ctx, res, "loc", lops, li, lm, nontrivial=lambda op, out: lnt.get(op, False))
 
+    T["unit-ops"] = round(time.time() - t0, 1)
     if thorough:
         cli(ctx, res, rng, cases)
+    T["total"] = round(time.time() - t0, 1)
 
 
 def cli(ctx, res, rng, cases):
